@@ -1,6 +1,48 @@
-(* C13 — timeline.  Headline theorems only. *)
-From Pyro Require Import Model.Base Model.Segment Model.Timeline Proofs.TimelineProofs.
+(* C13 — timeline.  Headline theorems only; lemmas in Proofs/TimelineProofs.v; model Model/Timeline.v.
+   Times are 10 s slots since year 1; st_get calls tl_generate on the range rounded by s_normalize_unix. *)
+From Pyro Require Import Model.Base Model.Segment Model.Timeline Proofs.SegStruct Proofs.TimelineProofs.
+Local Open Scope Z_scope.
 
 Theorem C13_shape_start : forall a b, tl_st (tl_generate a b) = a.
 Proof. exact tl_generate_start. Qed.
 Print Assumptions C13_shape_start.
+
+(* one entry per bucket: (b - a) / 10^lvl entries (truncating division, as Go's) *)
+Theorem C13_shape_length : forall a b,
+  length (tl_samples (tl_generate a b)) = Z.to_nat (Z.quot (b - a) (pow10 (tl_lvl (tl_generate a b)))).
+Proof. exact tl_generate_length. Qed.
+Print Assumptions C13_shape_length.
+
+(* GenerateTimeline compares int64 nanoseconds: durations[l] < totalDuration/1024; in slots this is exactly
+   1024 * 10^l < b - a *)
+Theorem C13_level_test : forall a b l, a <= b ->
+  (pow10 l * ns_per_slot <? Z.quot ((b - a) * ns_per_slot) 1024) = (1024 * pow10 l <? b - a).
+Proof. exact level_test. Qed.
+Print Assumptions C13_level_test.
+
+(* bucket size = 10^lvl slots with lvl the largest l <= 8 such that 1024 * 10^l slots < range, 0 (10 s
+   buckets) when there is none — i.e. 10 s buckets up to 10240 slots = 102400 s, about 28 h *)
+Theorem C13_shape : forall a b, a <= b ->
+  let lvl := tl_lvl (tl_generate a b) in
+  (lvl <= 8)%nat /\
+  (forall l, (l <= 8)%nat -> 1024 * pow10 l < b - a -> (l <= lvl)%nat) /\
+  (lvl = O \/ 1024 * pow10 lvl < b - a).
+Proof. exact tl_generate_level. Qed.
+Print Assumptions C13_shape.
+
+(* populating from any number of segments keeps start, end, bucket size and the number of entries *)
+Theorem C13_populate_shape : forall (segs : list segment) tl,
+  let tl' := fold_left (fun tl s => tl_populate s tl) segs tl in
+  tl_st tl' = tl_st tl /\ tl_et tl' = tl_et tl /\ tl_lvl tl' = tl_lvl tl /\
+  length (tl_samples tl') = length (tl_samples tl).
+Proof. exact tl_populate_all_shape. Qed.
+Print Assumptions C13_populate_shape.
+
+Example C13_shape_nonvacuous :
+  (* 10240 slots: still 10 s buckets, 10240 entries; 10241 slots: 100 s buckets, 1024 entries *)
+  tl_lvl (tl_generate 6373559600 (6373559600 + 10240)) = 0%nat /\
+  length (tl_samples (tl_generate 6373559600 (6373559600 + 10240))) = 10240%nat /\
+  tl_lvl (tl_generate 6373559600 (6373559600 + 10241)) = 1%nat /\
+  length (tl_samples (tl_generate 6373559600 (6373559600 + 10241))) = 1024%nat /\
+  tl_lvl (tl_generate 0 (1024 * 100000000 + 1)) = 8%nat /\ tl_lvl (tl_generate 0 (1024 * 10000000000 + 1)) = 8%nat.
+Proof. vm_compute. repeat split. Qed.
